@@ -359,6 +359,8 @@ def c29(tier, seed, replay):
            "rule": "writer operations (commits, compaction, close + log rewrite + reopen) placed in the three gaps of a backup by the "
                    "schedule controller; non-trivial = the backup completed and was restored",
            "harness_stats": stats, "binding_selftest": selftest, "samples": scenarios[3:5], "known_findings_seen": nk}
+    import checks as _checks
+    cov["design_models"] = _checks.run_side_models("C29", tier)
     vlib.write_evidence("C29", tier, seed, "model_checking", cov, time.time() - t0, nv,
                         ASSUME_COMMON + ["the writer operations run while the backup thread is parked at a schedule point; a writer running "
                                          "during a file copy itself is not forced"])
@@ -440,9 +442,9 @@ def c35(tier, seed, replay):
         findings = []
         runs = []
         for u in stats["universes"]:
-            if u["no_progress_for_10s"]:
+            if u["no_progress_for_30s"]:
                 findings.append({"prop": "C35", "kind": "no-progress", "universe": u["universe"], "stuck": u["stuck"],
-                                 "detail": "no operation completed for 10 s with %d threads running" % u["stress_threads"]})
+                                 "detail": "no operation completed for 30 s with %d threads running" % u["stress_threads"]})
         for uni, progs in sorted(per.items()):
             pp = os.path.join(cd, "programs-%s.ndjson" % uni)
             vlib.write_ndjson(pp, [{"name": p["name"], "steps": p["steps"]} for p in progs])
@@ -503,7 +505,7 @@ def c35(tier, seed, replay):
            "rule": "lock programs = the acquire/release steps each public operation performs, observed through the lock hooks "
                    "(alone, and per call under an N-thread stress run); Locks.tla runs K threads over every multiset of programs and every "
                    "interleaving with std Mutex / writer-preferring RwLock semantics and TLC's deadlock check; the stress run itself is "
-                   "watched for 10 s without progress",
+                   "watched for 30 s without progress",
            "model_runs": runs, "stress": saved["stats"]["universes"], "lock_programs": saved["programs"],
            "binding_selftest": saved.get("selftest"), "known_findings_seen": nk}
     vlib.write_evidence("C35", tier, seed, "model_checking", cov, time.time() - t0, nv,
